@@ -7,6 +7,7 @@ import (
 	"sync"
 
 	"github.com/lugu/qiloop/bus"
+	"github.com/lugu/qiloop/vhook"
 )
 
 // logListenerImpl implements LogListenerImplementor
@@ -23,6 +24,7 @@ type logListenerImpl struct {
 
 func (l *logListenerImpl) filter(msg *LogMessage) bool {
 	if msg.Level.Level == LogLevelNone.Level {
+		vhook.Emit("logmgr", l.manager, "decide", "lst", vhook.ID(l), "msg", msg.Id, "level", msg.Level.Level, "cat", msg.Category, "keep", false)
 		return false
 	}
 	l.filtersMutex.RLock()
@@ -31,13 +33,16 @@ func (l *logListenerImpl) filter(msg *LogMessage) bool {
 	for pattern, reg := range l.filtersReg {
 		if reg.Match([]byte(msg.Category)) {
 			if msg.Level.Level <= l.filters[pattern].Level {
+				vhook.Emit("logmgr", l.manager, "decide", "lst", vhook.ID(l), "msg", msg.Id, "level", msg.Level.Level, "cat", msg.Category, "keep", true)
 				return true
 			}
 		}
 	}
 	if msg.Level.Level <= l.defaultLevel.Level {
+		vhook.Emit("logmgr", l.manager, "decide", "lst", vhook.ID(l), "msg", msg.Id, "level", msg.Level.Level, "cat", msg.Category, "keep", true)
 		return true
 	}
+	vhook.Emit("logmgr", l.manager, "decide", "lst", vhook.ID(l), "msg", msg.Id, "level", msg.Level.Level, "cat", msg.Category, "keep", false)
 	return false
 }
 
@@ -92,6 +97,8 @@ func (l *logListenerImpl) AddFilter(category string, level LogLevel) error {
 	defer l.filtersMutex.Unlock()
 	l.filters[category] = level
 	l.filtersReg[category] = reg
+	vhook.Emit("logmgr", l.manager, "lst_filter", "lst", vhook.ID(l), "pat", category, "level", level.Level)
+	vhook.Gate("logger.addfilter.locked", "lst", vhook.ID(l))
 	l.manager.UpdateFilters()
 	return nil
 }
@@ -100,6 +107,7 @@ func (l *logListenerImpl) ClearFilters() error {
 	l.filtersMutex.Lock()
 	l.filters = make(map[string]LogLevel)
 	l.filtersReg = make(map[string]*regexp.Regexp)
+	vhook.Emit("logmgr", l.manager, "lst_clear", "lst", vhook.ID(l))
 	l.filtersMutex.Unlock()
 	l.manager.UpdateFilters()
 	return nil
@@ -111,6 +119,7 @@ func (l *logListenerImpl) OnLogLevelChange(level LogLevel) error {
 	}
 	l.filtersMutex.Lock()
 	l.defaultLevel = level
+	vhook.Emit("logmgr", l.manager, "lst_level", "lst", vhook.ID(l), "level", level.Level)
 	l.filtersMutex.Unlock()
 	l.manager.UpdateVerbosity()
 	return nil
@@ -121,6 +130,7 @@ func (l *logListenerImpl) SetLevel(level LogLevel) error {
 	}
 	l.filtersMutex.Lock()
 	l.defaultLevel = level
+	vhook.Emit("logmgr", l.manager, "lst_level", "lst", vhook.ID(l), "level", level.Level)
 	l.filtersMutex.Unlock()
 	l.manager.UpdateVerbosity()
 	return nil
